@@ -4,7 +4,7 @@ CONSTANTS
   NFWindow = 10
   MinBackoff = 1
   MaxBackoff = 6
-  MaxWaits = {0, 2, 5, 11, 61}
+  MaxWaits = {2, 5, 11}
   MaskExps = {0, 3, 9, 1000}
   Outcomes = {"live", "dead", "none", "tmo", "err"}
   J = 2
